@@ -37,6 +37,7 @@ def run(chk: Check) -> None:
     loop = loops[0]
 
     run_request_dict(chk, ix, serve, loop)
+    run_stop_state(chk, ix, serve, loop)
 
     # ------------- R16.1
     r1 = chk.rule("R16.1", "every exception class that connection I/O or frame decoding may raise inside the serve loop is caught inside the loop by a handler that neither re-raises nor leaves the loop (intended exits identified structurally)", floor=4)
@@ -327,6 +328,75 @@ def run_request_dict(chk: Check, ix, serve, loop) -> None:
             r5.ok(k, serve.loc(e))
         else:
             r5.violation(k, serve.loc(e), "a 'stop' request that run_command rejected (cmd_stop never ran, status file still present) still exits the process")
+
+
+def run_stop_state(chk: Check, ix, serve, loop) -> None:
+    """R16.6: `command` can be 'stop' when an iteration of the serve loop starts only if cmd_stop ran."""
+    r6 = chk.rule("R16.6", "serve: the loop variable that the finally block consults (`command != 'stop'` => unlink the status file) never carries a request's 'stop' into the next iteration: after the reply it is either tested by a pure `command == 'stop'` (whose true branch exits or resets it) or reset; otherwise a rejected stop followed by a timeout/signal exit leaves the status file behind", floor=2)
+    g = CFG(serve.node)
+    var = "command"
+    heads = [n for n in g.nodes if n.kind == "test" and n.stmt is loop]
+    if len(heads) != 1:
+        raise AnalysisError("serve loop head not found in the CFG")
+    head = heads[0]
+    inside = g.reachable([m for m, lab in head.succ if lab == "true"], avoiding=[head], labels_excluded=())
+    # nodes of the loop body proper: those from which the head is reachable again
+    body = {n for n in inside if head in g.reachable([n])}
+
+    def is_cmp(e, op):
+        return isinstance(e, ast.Compare) and len(e.ops) == 1 and isinstance(e.ops[0], op) and norm(e.left) == var and isinstance(e.comparators[0], ast.Constant) and e.comparators[0].value == "stop"
+
+    def refine(state: frozenset, e: ast.expr, label: str) -> frozenset:
+        maybe = bool(state & {"req", "stop"})
+        if is_cmp(e, ast.Eq) or is_cmp(e, ast.NotEq):
+            eq_branch = (label == "true") == is_cmp(e, ast.Eq)
+            if eq_branch:
+                return frozenset({"stop"}) if maybe else frozenset()
+            return frozenset({"notstop" if x in ("req", "stop") else x for x in state})
+        if isinstance(e, ast.BoolOp) and isinstance(e.op, ast.And) and any(is_cmp(v, ast.Eq) for v in e.values) and label == "true":
+            return frozenset({"stop"}) if maybe else frozenset()
+        return state
+
+    IN: dict = {n: frozenset() for n in g.nodes}
+    IN[g.entry] = frozenset({"none"})
+    work = [g.entry]
+    back_out: dict = {}
+    while work:
+        n = work.pop()
+        st = IN[n]
+        out_all = st
+        if n.kind == "stmt" and isinstance(n.stmt, (ast.Assign, ast.AnnAssign)):
+            tg = n.stmt.targets[0] if isinstance(n.stmt, ast.Assign) else n.stmt.target
+            if isinstance(tg, ast.Name) and tg.id == var:
+                v = n.stmt.value
+                out_all = frozenset({"none"}) if isinstance(v, ast.Constant) and v.value is None else (frozenset({"notstop"}) if isinstance(v, ast.Constant) else frozenset({"req"}))
+        for m, lab in n.succ:
+            o = out_all
+            if n.kind == "test" and lab in ("true", "false") and n.exprs:
+                o = refine(st, n.exprs[0], lab)
+            if lab == "exc":
+                o = st | out_all
+            if m is head and n in body:
+                back_out[(n, lab)] = back_out.get((n, lab), frozenset()) | o
+            new = IN[m] | o
+            if new != IN[m]:
+                IN[m] = new
+                work.append(m)
+    if not back_out:
+        raise AnalysisError("serve loop has no back edge in the CFG")
+    bad = {k: v for k, v in back_out.items() if v & {"req", "stop"}}
+    key = "at the start of every iteration after the first, `command` is None or a command that is known not to be 'stop'"
+    if not bad:
+        r6.ok(key, serve.loc(loop), f"{len(back_out)} back edges")
+    else:
+        (n, lab), v = sorted(bad.items(), key=lambda kv: kv[0][0].lineno)[-1]
+        r6.violation(key, serve.loc(n.stmt) if n.stmt is not None else serve.loc(loop), f"an iteration can end (edge `{lab}` from line {n.lineno}) with `command` still holding a request's value that may be 'stop' although the stop was not carried out: a later exit through the idle timeout or a signal finds `command == 'stop'` and keeps the status file of a dead daemon")
+    # the finally block decides on exactly this variable
+    fin = [n for n in g.nodes if n.kind == "test" and n.exprs and (is_cmp(n.exprs[0], ast.NotEq) or is_cmp(n.exprs[0], ast.Eq))and n not in body]
+    if fin:
+        r6.ok("the status-file decision after the loop tests the same variable", serve.loc(fin[0].stmt))
+    else:
+        r6.violation("the status-file decision after the loop tests the same variable", serve.loc(), "no `command != 'stop'` test guards the unlink after the loop")
 
 
 def short_site(origin: str) -> str:
